@@ -42,7 +42,7 @@ JudgeEvent(e) ==
     [] e.kind = "clog2" -> Judge_clog2(e)
     [] e.kind = "int_to_bin" -> Judge_int_to_bin(e)
     [] e.kind = "parse" -> Judge_parse(e) \cup DriftParse(e) \cup DriftBenchParse(e) \cup DriftExprParse(e)
-    [] e.kind = "v_roundtrip" -> Judge_v_roundtrip(e) \cup DriftRoundTrip(e)
+    [] e.kind = "v_roundtrip" -> Judge_v_roundtrip(e) \cup DriftRoundTrip(e) \cup DriftWriter(e)
     [] e.kind = "bench_roundtrip" -> Judge_bench_roundtrip(e) \cup DriftBenchRoundTrip(e)
     [] e.kind = "parse2" -> Judge_parse2(e) \cup DriftParse2(e)
     [] e.kind = "api_history"  -> Judge_api_history(e)
